@@ -359,8 +359,15 @@ pub struct BadSubject<Item> {
   observers: MutRc<Option<SmallVec<[Box<dyn Publisher<Item, ()>>; 1]>>>,
   chamber: MutRc<Option<SmallVec<[Box<dyn Publisher<Item, ()>>; 1]>>>,
 }
+impl<Item> BadSubject<Item> {
+  fn load(&mut self) {
+    if let Some(observers) = self.observers.rc_deref_mut().as_mut() {
+      observers.append(self.chamber.rc_deref_mut().as_mut().unwrap());
+    }
+  }
+}
 impl<Item: Clone> Observer<Item, ()> for BadSubject<Item> {
-  // no load(); one lock acquisition per subscriber
+  // load() is never called; one lock acquisition per subscriber
   fn next(&mut self, value: Item) {
     let n = self.observers.rc_deref().as_ref().map_or(0, |o| o.len());
     for i in 0..n {
